@@ -36,7 +36,9 @@ Kinds == <<
     I({}, {"b"}, {"n"}, {}, FALSE, FALSE, FALSE, 4),         \* 15  b := load n (second memory)
     I({"c"}, {}, {}, {"n"}, FALSE, FALSE, FALSE, 2),         \* 16  store n := c
     I({"b"}, {}, {}, {"m"}, FALSE, FALSE, FALSE, 4),         \* 17  store m[b] := const   (address from a register)
-    I({"b"}, {"a"}, {"m"}, {}, FALSE, FALSE, FALSE, 4)       \* 18  a := load m[b]
+    I({"b"}, {"a"}, {"m"}, {}, FALSE, FALSE, FALSE, 4),      \* 18  a := load m[b]
+    I({}, {"m"}, {}, {}, FALSE, FALSE, FALSE, 4),            \* 19  register "m" := const (a REGISTER named like the memory space m:
+    I({"m"}, {"c"}, {}, {}, FALSE, FALSE, FALSE, 4)          \* 20  c := f(register "m")    registers and memories are separate name spaces)
 >>
 
 Blocks(n) == [1..n -> KindSet]
